@@ -351,12 +351,16 @@ def run_threads(ctx, lines, ns):
             ctx.pfails.append(("threads:crash", "threaded run with %d threads died: %s" % (n, err[-600:]), "threads", {"n": n, "lines": lines[:2000]}, {}))
             return
         for i, (x, y) in enumerate(zip(seq, out)):
+            if x != y and '"ok":true' in x and '"ok":true' in y and lines[i].split(" ", 1)[0] in ("jws.sig", "jws.sig_io", "jwe.enc", "jwe.enc_jwk", "jwk.gen") \
+                    and '"rand"' not in lines[i][:40] and NONDET_MARK in lines[i]:
+                continue        # randomized output (ECDSA / PSS / OpenSSL's own generator): only the verdict is comparable
             if x != y:
                 ctx.pfails.append(("threads:result", "line %d gives %s alone and %s on %d threads: %s" % (i, x[:200], y[:200], n, lines[i][:300]),
                                    "threads", {"n": n, "lines": lines[:2000]}, {}))
                 return
 
 
+NONDET_MARK = "_nondet"
 DET = ("jws.ver", "jws.ver_io", "jws.hdr", "jwe.hdr", "jwe.dec", "jwe.dec_jwk", "jwe.dec_cek", "jwe.dec_cek_io", "jwk.thp",
        "jwk.thp_buf", "jwk.eql", "jwk.prm", "jwk.exc")
 
@@ -375,6 +379,18 @@ def run(ctx):
     det = [(o, a) for o, a in prod if o in ("jws.sig",) and not isinstance(a["jwk"], (list,)) and "keys" not in a["jwk"]
            and a["sig"]["protected"]["alg"] in G.DETERMINISTIC]
     lines = [F.opline(o, a) for o, a in det + [x for x in ro if x[0] in DET]]
+    # producing calls too: encryption is deterministic under the (thread-local) random tape for the symmetric families;
+    # ECDSA / PSS signing and the asymmetric wraps are run for the race detector and compared by verdict only
+    sent_prod = [(o, {k: v for k, v in a.items() if not k.startswith("_")}) for o, a in prod]
+    for o, a in sent_prod:
+        if o == "jwe.enc" and isinstance(a.get("jwk"), (dict, str)) and (isinstance(a["jwk"], str) or a["jwk"].get("kty") == "oct"):
+            lines.append(F.opline(o, a))
+        elif o in ("jws.sig", "jwe.enc", "jwe.enc_jwk") and (o, a) not in det:
+            lines.append(F.opline(o, dict(a, **{NONDET_MARK: 1})))
+    for t in ({"alg": "HS256"}, {"kty": "oct", "bytes": 16}, {"alg": "ES256"}, {"alg": "A128KW"}):
+        lines.append(F.opline("jwk.gen", {"jwk": t, NONDET_MARK: 1}))
+    for n_ in ("oct-32", "EC-P256", "RSA-2048"):
+        lines.append(F.opline("jwk.pub", {"jwk": dict(K.pool(ctx.jose)[n_], key_ops=["sign", "verify"])}))
     rng.shuffle(lines)
     run_globals(ctx, lines[:6000 if ctx.tier == "quick" else 40000])
     tl = lines[:3000 if ctx.tier == "quick" else 12000]
